@@ -34,7 +34,7 @@ type Scenario struct {
 
 // Fault describes the fault injected into one session.
 type Fault struct {
-	Kind     string `json:"kind"`     // "cut", "storefail", "fsfail" (directory mailbox: a real write fault), "alter"
+	Kind     string `json:"kind"`     // "cut", "storefail", "fsfail" (directory mailbox: a real write fault), "fspartial" (... in the middle of the file), "alter"
 	Dir      string `json:"dir"`      // receiver of the affected direction
 	At       int    `json:"at"`       // byte count (cut), store index (storefail), offset (alter)
 	WriteErr bool   `json:"writeerr"` // cut: writer sees errors afterwards
@@ -170,6 +170,8 @@ func RunSessionOpts(sc *Scenario, st map[string]*Station, r *Recorder, configure
 			st[f.Dir].FailStoreAt = f.At
 		case "fsfail":
 			st[f.Dir].FSFailAt = f.At
+		case "fspartial":
+			st[f.Dir].FSPartialAt = f.At
 		case "alter":
 			l.AltDir = f.Dir
 			l.Alter = makeAlter(f)
@@ -256,6 +258,7 @@ func RunSessionOpts(sc *Scenario, st map[string]*Station, r *Recorder, configure
 	for _, s := range st {
 		s.FailStoreAt = 0
 		s.FSFailAt = 0
+		s.FSPartialAt = 0
 	}
 	return res
 }
